@@ -2124,9 +2124,10 @@ class _GroupElem(ABC):
 
                 # Project (x, y, z) coordinates into the element's (i, j, k) coordinate system if dim != inDim.
                 # its the case when a 2D mesh is in 3D space
+                # a segment is always described along its own direction (see Get_F_e_pg)
                 coordElemBase = coordElem.copy()
                 coordinatesBase_n = coordinates_n[nodesInElement].copy()
-                if dim != inDim:
+                if dim != inDim or dim == 1:
                     coordElemBase = coordElemBase @ sysCoord_e[e]
                     coordinatesBase_n = coordinatesBase_n @ sysCoord_e[e]
 
